@@ -411,49 +411,119 @@ def check_collapse(idx: Index, rep: Report):
                reason="probability of outcome 0 is not computed from the collapse onto 0")
 
 
-def _skeleton(stmts: List[ast.stmt], drop) -> List[str]:
-    out = []
-    for s in stmts:
-        if drop(s):
+SIM_CALLS = ("translate_c", "simulate", "perform_measurement", "collapse_statevector_to_desired_measurement")
+
+
+def _bookkeeping(loop: ast.While, fnode: ast.AST) -> List[str]:
+    """the classical-control bookkeeping of a `while len(unitary_circuits) > 1` loop, as text that does not depend on what the locals are called and leaves out
+    everything that belongs to the simulation (calls of the translator / simulator / measurement routines and whatever is computed from their results -
+    state vectors, probabilities).  The measured outcome itself is bookkeeping input: the statement that defines it is left out on both sides (one side
+    measures, the other reads the requested string), its uses stay."""
+    import copy
+    outcome = None
+    for n in ast.walk(loop):
+        if isinstance(n, ast.AugAssign) and isinstance(n.op, ast.Add) and isinstance(n.target, ast.Name) and "meas" in n.target.id and isinstance(n.value, ast.Name):
+            outcome = n.value.id
+    if outcome is None:
+        raise AnalysisError("control loop: the accumulation of the measured outcome was not found")
+
+    def has_sim_call(x) -> bool:
+        return any(isinstance(c, ast.Call) and norm(c.func).split(".")[-1] in SIM_CALLS for c in ast.walk(x))
+    tainted: Set[str] = set()
+    for _round in range(4):
+        for st in ast.walk(loop):
+            if isinstance(st, (ast.Assign, ast.AugAssign)):
+                val = st.value
+                uses = {y.id for y in ast.walk(val) if isinstance(y, ast.Name)}
+                if has_sim_call(val) or (uses & tainted):
+                    tgts = st.targets if isinstance(st, ast.Assign) else [st.target]
+                    for t in tgts:
+                        for y in ast.walk(t):
+                            if isinstance(y, ast.Name) and y.id != outcome:
+                                tainted.add(y.id)
+
+    def dropped(st) -> bool:
+        if isinstance(st, (ast.Assign, ast.AugAssign)):
+            tg = st.targets if isinstance(st, ast.Assign) else [st.target]
+            names = {y.id for t in tg for y in ast.walk(t) if isinstance(y, ast.Name)}
+            if outcome in names and not isinstance(st, ast.AugAssign):
+                return True                                     # where the outcome comes from differs by design
+            if names and names <= tainted:
+                return True
+            if has_sim_call(st.value):
+                return True
+        if isinstance(st, ast.Expr) and has_sim_call(st.value):
+            return True
+        if isinstance(st, ast.If) and not st.orelse and all(dropped(x) for x in st.body):
+            return True                                         # a guard around simulation steps only
+        return False
+    # a local that only feeds the simulation steps (the outcome requested from the measurement routine) belongs to them
+    feeders: Set[str] = set()
+    simple = [st for st in ast.walk(loop) if isinstance(st, ast.Assign) and len(st.targets) == 1 and isinstance(st.targets[0], ast.Name)]
+    for st in simple:
+        v = st.targets[0].id
+        if v == outcome:
             continue
-        if isinstance(s, ast.If):
-            out.append("if " + norm(s.test).replace("source_circuit", "CIRC").replace("circuit", "CIRC"))
-            out += ["  " + x for x in _skeleton(s.body, drop)]
-            if s.orelse:
-                out.append("else")
-                out += ["  " + x for x in _skeleton(s.orelse, drop)]
-        elif isinstance(s, (ast.While, ast.For)):
-            out.append(norm(s))
-            out += ["  " + x for x in _skeleton(s.body, drop)]
-        else:
-            out.append(norm(s).replace("source_circuit", "CIRC").replace("circuit.", "CIRC.").replace("n_qubits=circuit", "n_qubits=CIRC"))
-    return out
+        uses = [u for u in ast.walk(loop) if isinstance(u, ast.Name) and u.id == v and isinstance(u.ctx, ast.Load)]
+        if uses and all(any(any(z is u for z in ast.walk(d)) for d in ast.walk(loop) if isinstance(d, (ast.Assign, ast.AugAssign, ast.Expr)) and dropped(d)) for u in uses):
+            feeders.add(v)
+    _dropped0 = dropped
+
+    def dropped(st) -> bool:          # noqa: F811 - the final predicate
+        if isinstance(st, ast.Assign) and len(st.targets) == 1 and isinstance(st.targets[0], ast.Name) and st.targets[0].id in feeders:
+            return True
+        return _dropped0(st)
+    assigned = {y.id for n in ast.walk(fnode) for y in ast.walk(n) if isinstance(y, ast.Name) and isinstance(y.ctx, ast.Store)} | {a_.arg for a_ in fnode.args.args}
+    canon: Dict[str, str] = {}
+
+    def rename(node):
+        node = copy.deepcopy(node)
+        for y in ast.walk(node):
+            if isinstance(y, ast.Name) and y.id in assigned and y.id != "self":
+                y.id = canon.setdefault(y.id, f"v{len(canon)}")
+        return node
+
+    def walk(stmts, depth) -> List[str]:
+        out = []
+        for st in stmts:
+            if dropped(st):
+                continue
+            pad = "  " * depth
+            if isinstance(st, ast.If):
+                out.append(pad + "if " + norm(rename(st.test)))
+                out += walk(st.body, depth + 1)
+                if st.orelse:
+                    out.append(pad + "else")
+                    out += walk(st.orelse, depth + 1)
+            elif isinstance(st, ast.While):
+                out.append(pad + "while " + norm(rename(st.test)))
+                out += walk(st.body, depth + 1)
+            elif isinstance(st, ast.For):
+                out.append(pad + "for " + norm(rename(st.target)) + " in " + norm(rename(st.iter)))
+                out += walk(st.body, depth + 1)
+            else:
+                out.append(pad + norm(rename(st)))
+        return out
+    return walk(loop.body, 0)
 
 
 def check_control_loop_clone(idx: Index, rep: Report):
     rule = "K8.control-loop-clone"
     a = idx.function(f"{CIRCUIT}::generate_applied_gates")
     b = idx.function(f"{TCIRQ}::CirqSimulator.simulate_circuit")
-    wa = [n for n in ast.walk(a.node) if isinstance(n, ast.While) and "len(unitary_circuits) > 1" in norm(n.test)]
-    wb = [n for n in ast.walk(b.node) if isinstance(n, ast.While) and "len(unitary_circuits) > 1" in norm(n.test)]
+    wa = [n for n in ast.walk(a.node) if isinstance(n, ast.While) and "len(" in norm(n.test) and "> 1" in norm(n.test)]
+    wb = [n for n in ast.walk(b.node) if isinstance(n, ast.While) and "len(" in norm(n.test) and "> 1" in norm(n.test)]
     if not wa or not wb:
-        raise AnalysisError("control loop `while len(unitary_circuits) > 1` not found in both siblings")
-    sim_words = ("translate", "job_sim", "sv", "cprob", "success_probability", "desired_meas =", "measure, sv", "measure =", "desired_meas")
-
-    def drop(s):
-        t = norm(s)
-        if isinstance(s, ast.If) and ("c.size > 0" in norm(s.test)):
-            return True
-        return any(t.startswith(w) or (" = " in t and t.split(" = ")[0].strip() in ("translated_circuit", "job_sim", "sv", "desired_meas")) for w in
-                   ("translated_circuit", "job_sim", "sv =", "success_probability", "desired_meas =", "measure, sv, cprob", "measure ="))
-    ska = _skeleton(wa[0].body, drop)
-    skb = _skeleton(wb[0].body, drop)
+        raise AnalysisError("control loop `while len(...) > 1` not found in both siblings")
+    ska = _bookkeeping(wa[0], a.node)
+    skb = _bookkeeping(wb[0], b.node)
     diff = [x for x in ska if x not in skb] + [x for x in skb if x not in ska]
     rep.decide(not diff, rule, a, wa[0], text="classical-control bookkeeping identical in generate_applied_gates and the cirq CMEASURE loop",
-               what="the resource estimator replays exactly the gate-selection logic of the simulator (same queue handling for nested controls)",
-               reason=f"skeletons differ in {len(diff)} statement(s): {diff[:3]}")
+               what="the resource estimator replays exactly the gate-selection logic of the simulator (same queue handling for nested controls), whatever the locals are "
+                    "called and however the simulation steps in between are written",
+               reason=f"bookkeeping differs in {len(diff)} statement(s): {diff[:3]}")
     rep.stats["control_loop_statements"] = len(ska)
-    rep.floor("control loop skeleton statements", len(ska), 15)
+    rep.floor("control loop bookkeeping statements", len(ska), 12)
 
 
 def check_frequency_split(idx: Index, rep: Report):
